@@ -212,7 +212,12 @@ class _STIXBase(collections.abc.Mapping):
 
         setting_kwargs = {}
 
-        has_custom = bool(all_custom_prop_names)
+        # Custom properties given as None or [] are dropped below; only those
+        # which are kept make the object customized.
+        has_custom = any(
+            assigned_properties.get(prop_name) not in (None, [])
+            for prop_name in all_custom_prop_names
+        )
         for prop_name in property_order:
 
             prop_val = assigned_properties.get(prop_name)
